@@ -73,6 +73,7 @@ func (m *Mux) NewEndpoint(matchFunc MatchFunc) *Endpoint {
 	m.lock.Lock()
 	m.endpoints[endpoint] = matchFunc
 	m.lock.Unlock()
+	verifYield("mux.NewEndpoint.registered", m)
 
 	go m.handlePendingPackets(endpoint, matchFunc)
 
@@ -154,6 +155,7 @@ func (m *Mux) dispatch(buf []byte) error {
 
 	var endpoint *Endpoint
 
+	verifYield("mux.dispatch.enter", m)
 	m.lock.Lock()
 	for e, f := range m.endpoints {
 		if f(buf) {
@@ -186,6 +188,7 @@ func (m *Mux) dispatch(buf []byte) error {
 	}
 
 	m.lock.Unlock()
+	verifYield("mux.dispatch.write", m)
 	_, err := endpoint.buffer.Write(buf)
 
 	// Expected when bytes are received faster than the endpoint can process them (#2152, #2180)
@@ -199,6 +202,8 @@ func (m *Mux) dispatch(buf []byte) error {
 }
 
 func (m *Mux) handlePendingPackets(endpoint *Endpoint, matchFunc MatchFunc) {
+	verifYield("mux.flush.enter", m)
+	defer verifYield("mux.flush.exit", m)
 	m.lock.Lock()
 	defer m.lock.Unlock()
 
